@@ -772,25 +772,26 @@ impl endpoint::Connection for Connection {
         Self::CloseError: From<W::Error>,
     {
         let error_is_some = error.is_some();
-        let frame = Frame::new(0u16, FrameBody::Close(Close { error }));
-        writer.send(frame).await?;
-
-        match &self.local_state {
+        // The state after the close; nothing is written in a state that does not allow one
+        let next_state = match &self.local_state {
             ConnectionState::Opened => match error_is_some {
-                true => self.local_state = ConnectionState::Discarding,
-                false => self.local_state = ConnectionState::CloseSent,
+                true => ConnectionState::Discarding,
+                false => ConnectionState::CloseSent,
             },
-            ConnectionState::CloseReceived => self.local_state = ConnectionState::End,
+            ConnectionState::CloseReceived => ConnectionState::End,
             ConnectionState::OpenSent => match error_is_some {
-                true => self.local_state = ConnectionState::Discarding,
-                false => self.local_state = ConnectionState::ClosePipe,
+                true => ConnectionState::Discarding,
+                false => ConnectionState::ClosePipe,
             },
             ConnectionState::OpenPipe => match error_is_some {
-                true => self.local_state = ConnectionState::Discarding,
-                false => self.local_state = ConnectionState::OpenClosePipe,
+                true => ConnectionState::Discarding,
+                false => ConnectionState::OpenClosePipe,
             },
             _ => return Err(CloseError::IllegalState),
-        }
+        };
+        let frame = Frame::new(0u16, FrameBody::Close(Close { error }));
+        writer.send(frame).await?;
+        self.local_state = next_state;
         Ok(())
     }
 
